@@ -126,6 +126,13 @@ def run(chk):
         nguards = 2 * myg if nreg < 6 else 4 * myg
         cases.append(dict(xs=xs, ys=ys, nx=xs[-1], ny=sum(ys) + nguards, nyng=sum(ys), dn=rng.choice([0, 1, 2]), sepidx=rng.choice([0, 1])))
     payload = dict(eqs=eqs)
+    # the integer ladder alone (so that the oracle on real equilibria still runs when the tables / orderings part of the translator refuses the source)
+    lad_src = info["ladder_source"] if info is not None else None
+    if lad_src is None:
+        try:
+            lad_src = tr.ladder(os.path.join(REPO, "hypnotoad/core/mesh.py"))[1]
+        except (pyir.TranslationError, SyntaxError, OSError) as e:
+            chk.tie_broken("translate/topo.py:ladder", f"the integer ladder of writeGridfile cannot be extracted: {e}")
     if info is not None:
         payload.update(ladder_source=info["ladder_source"], ladder_cases=cases + [dict(xs=[0, 1], ys=[1], nx=1, ny=1, nyng=1, dn=0, sepidx=0)])
     rc, res, o, e = common.run_impl_json("impl/topo.py", payload, timeout=900)
@@ -134,8 +141,8 @@ def run(chk):
         return
     n_eq = n_lad = n_lad_ok = 0
     # ---- tables / ordering / tiling on the real objects
-    if info is not None:
-        T = info["tables"]
+    if lad_src is not None:
+        T = info["tables"] if info is not None else None
         need_ladder = []
         for q, d in zip(eqs, res["eq"]):
             where = {"family": q["family"], "sign": q["sign"], "options": q["options"]}
@@ -145,14 +152,15 @@ def run(chk):
             n_eq += 1
             topo = {None: "lsn" if "inner_lower_divertor" in d["order"] else "usn", "connected": "cdn", "lower": "ldn", "upper": "udn"}[d["double_null_type"]]
             key = topo + ("_uo" if q["options"].get("start_at_upper_outer") and topo != "usn" else "")
-            tab = T.get(key)
-            if tab is None or tab["order"] != d["order"]:
-                chk.tie_broken(f"tables:order:{key}", f"region order of the real equilibrium {d['order']} differs from the extracted ordering {tab and tab['order']}")
-                continue
-            real = sorted((n, k, c["upper"][0], c["upper"][1]) for n, r in d["regions"].items() for k, c in enumerate(r["connections"]) if c["upper"] is not None)
-            if real != sorted(map(tuple, tab["connections"])):
-                chk.tie_broken(f"tables:connections:{key}", f"connections of the real equilibrium differ from the extracted table: {real[:4]}...")
-                continue
+            tab = T.get(key) if T is not None else None
+            if T is not None:
+                if tab is None or tab["order"] != d["order"]:
+                    chk.tie_broken(f"tables:order:{key}", f"region order of the real equilibrium {d['order']} differs from the extracted ordering {tab and tab['order']}")
+                    continue
+                real = sorted((n, k, c["upper"][0], c["upper"][1]) for n, r in d["regions"].items() for k, c in enumerate(r["connections"]) if c["upper"] is not None)
+                if real != sorted(map(tuple, tab["connections"])):
+                    chk.tie_broken(f"tables:connections:{key}", f"connections of the real equilibrium differ from the extracted table: {real[:4]}...")
+                    continue
             # symmetric + equal nx across each connection + tiling of the index rectangle by region_indices
             regs = d["regions"]
             for n, r in regs.items():
@@ -176,7 +184,7 @@ def run(chk):
             dn = {None: 0, "connected": 0, "lower": 1, "upper": 2}[d["double_null_type"]]
             need_ladder.append((q, d, dict(xs=m["x_startinds"], ys=m["y_regions_noguards"], nx=m["nx"], ny=m["ny"], nyng=m["ny_noguards"], dn=dn, sepidx=m["sepidx"])))
         # integers for the real meshes through the real ladder
-        rc2, res2, o2, e2 = common.run_impl_json("impl/topo.py", dict(ladder_source=info["ladder_source"], ladder_cases=[c for _, _, c in need_ladder]), timeout=300)
+        rc2, res2, o2, e2 = common.run_impl_json("impl/topo.py", dict(ladder_source=lad_src, ladder_cases=[c for _, _, c in need_ladder]), timeout=300)
         if res2 is None:
             chk.tie_broken("impl/topo.py:ladder", (o2 + e2)[-800:])
         else:
@@ -186,6 +194,25 @@ def run(chk):
                     chk.fail("ladder-raises", f"the integer ladder raises {ints['error']} on a generated mesh", where)
                     continue
                 topology_oracle(chk, q["family"], q["options"], d, dict(zip(INTS, ints)), where)
+    if info is not None and "ladder" in res and "xpt" in info["tables"]:
+        # ---- the isolated X-point topology (four legs on the wall, torpex.py): the executed ladder on random leg sizes against the extracted table
+        xt = info["tables"]["xpt"]
+        xi = {r: i for i, r in enumerate(xt["order"])}
+        up4 = {(xi[a], i): (xi[b], j) for a, i, b, j in xt["connections"]}
+        for c, r in zip(cases, res["ladder"]):
+            if len(c["ys"]) != 4 or len(c["xs"]) != 3 or isinstance(r, dict):
+                continue
+            t = dict(zip(INTS, r))
+            nyng = c["nyng"]
+            bad = [(x, j, model_up(up4, c["ys"], c["xs"], x, j), bout_up(t, nyng, x, j)) for x in range(c["nx"]) for j in range(nyng)
+                   if model_up(up4, c["ys"], c["xs"], x, j) != bout_up(t, nyng, x, j)]
+            n_eq += 1
+            if bad:
+                chk.fail("adjacency:isolated-xpoint", "isolated X-point topology (4 legs on the wall): cell adjacency from torpex.py's connections differs from BOUT++'s reading of the integers writeGridfile computes",
+                         dict(leg_sizes=c["ys"], x_startinds=c["xs"], integers=t, first_mismatches=[dict(x=x, j=j, tables_say=a, integers_say=b) for x, j, a, b in bad[:4]]))
+            if not ordered(t, nyng):
+                chk.fail("ordering:isolated-xpoint", f"topology integers are not ordered as BOUT++ requires (isolated X-point): {t}", dict(leg_sizes=c["ys"], integers=t))
+    if info is not None:
         # ---- D: translation validation of the ladder in Coq
         lad = res["ladder"]
         items = []
